@@ -22,7 +22,7 @@ TMAX, TCOUNT = 4.0, 9
 TOL_TREE = 1e-5               # clause 1, absolute, on S, I, R (DESIGN: 4e-8 measured on trees, 0.1 on the 4-cycle)
 CONTROL_MIN = 1e-2            # the non-tree control must deviate by at least this much
 TOL_LIMIT = 1e-6              # clauses 3, 4: times N
-TOL_ADAMS = 2e-4              # same, for the entry points that integrate with vode/adams at its default rtol = 1e-6
+TOL_ADAMS = 2e-5              # same, for the entry points that integrate with vode/adams at its default rtol = 1e-6
 ADAMS = ("SIS_pair_based", "SIS_heterogeneous_pairwise")   # source: analytic.py uses _my_odeint_ for these two systems
 TOL_FINAL = 1e-6              # clause 5, on R/N
 
@@ -404,6 +404,8 @@ def limit_scenarios(name, ps, n, tier):
                     continue
                 if base == "Y0" and rec and "X0" not in ps:
                     continue
+                if len(seeds) + len(rec) == n:
+                    continue      # no susceptible node left: outside the family (DESIGN C06: at least one susceptible node)
                 out.append((mode, seeds, rec, None))
     return out
 
@@ -438,8 +440,14 @@ def c3_expected(name, n, key, mode, seeds, rho, res):
     return eS, eI, i0
 
 
+def _finite(*arrs):
+    return all(np.all(np.isfinite(np.asarray(a, dtype=float))) for a in arrs)
+
+
 def c3_task(task):
-    """tau = 0.  task: name, ps, n, key (w, g, 0, gam), scenarios"""
+    """tau = 0.  task: name, n, key (w, g, 0, gam), scenarios.  Rows are dicts:
+    mode, seeds, rec, rho, dS, dI, i0, err (message, also raises with tau=1?), nonfinite
+    ("generic": also non-finite with tau=1, i.e. the closure is undefined on this input; "limit"), note"""
     name, n, key = task["name"], task["n"], task["key"]
     weighted_graph = any(x != 1 for x in key[0] if x) or any(x != 1 for x in key[1])
     G = graph_of_key(n, key, True)
@@ -449,29 +457,38 @@ def c3_task(task):
     for (mode, seeds, rec, rho) in task["scenarios"]:
         if weighted_graph and not mode.endswith("/weighted"):
             continue
+        row = {"mode": mode, "seeds": seeds, "rec": rec, "rho": rho, "dS": float("inf"), "dI": float("inf"), "i0": 0.0,
+               "err": None, "nonfinite": None, "note": None}
         try:
             res = call_graph_entry(name, G, 0.0, gamma, mode, nodes, seeds, rec, rho)
-            eS, eI, i0 = c3_expected(name, n, key, mode, seeds, rho, res)
-            S = np.asarray(res[1], dtype=float)
-            I = np.asarray(res[2], dtype=float)
-            if S.shape != eS.shape or not np.all(np.isfinite(S)) or not np.all(np.isfinite(I)):
-                dS = dI = float("inf")
-            else:
-                dS = float(np.abs(S - eS).max())
-                dI = float(np.abs(I - eI).max())
-            note = None
-            if mode.endswith("/weighted") and abs(I[0] - i0) > 1e-9:
-                note = "row 0 has I(0)=%r where the scenario has %r (initial-condition matter, C06)" % (float(I[0]), i0)
-            rows.append((mode, seeds, rec, rho, dS, dI, None, float(I[0]), note))
         except Exception as ex:
             err = "%s: %s" % (type(ex).__name__, str(ex)[:100])
-            generic = None
             try:   # is the failure specific to the limit?
                 call_graph_entry(name, G, 1.0, gamma, mode, nodes, seeds, rec, rho)
                 generic = False
             except Exception:
                 generic = True
-            rows.append((mode, seeds, rec, rho, float("inf"), float("inf"), (err, generic), 0.0, None))
+            row["err"] = (err, generic)
+            rows.append(row)
+            continue
+        if not _finite(res[1], res[2]):
+            try:
+                r1 = call_graph_entry(name, G, 1.0, gamma, mode, nodes, seeds, rec, rho)
+                row["nonfinite"] = "limit" if _finite(r1[1], r1[2]) else "generic"
+            except Exception:
+                row["nonfinite"] = "generic"
+            rows.append(row)
+            continue
+        eS, eI, i0 = c3_expected(name, n, key, mode, seeds, rho, res)
+        S = np.asarray(res[1], dtype=float)
+        I = np.asarray(res[2], dtype=float)
+        if S.shape == eS.shape:
+            row["dS"] = float(np.abs(S - eS).max())
+            row["dI"] = float(np.abs(I - eI).max())
+        row["i0"] = float(I[0])
+        if mode.endswith("/weighted") and abs(I[0] - i0) > 1e-9:
+            row["note"] = "row 0 has I(0)=%r where the scenario has %r (initial-condition matter, C06)" % (float(I[0]), i0)
+        rows.append(row)
     return {"name": name, "n": n, "key": key, "rows": rows}
 
 
@@ -553,7 +570,15 @@ def _base_row(EoN, base, ps, a, k, gamma, key, wrapper, mode):
         surv = SURV[(not sir, 1, key[3])]
         eI = I[0] * surv
         eS = np.full(len(eI), S[0]) if sir else S[0] + (I[0] - eI)
-        if S.shape != eS.shape or not np.all(np.isfinite(S)) or not np.all(np.isfinite(I)):
+        if not _finite(S, I):
+            a3, k3 = with_rates(base, ps, a, k, 1.0, gamma)
+            try:
+                r1 = getattr(EoN, base)(*a3, **k3)
+                kind = "nonfinite-limit" if _finite(r1[1], r1[2]) else "nonfinite-generic"
+            except Exception:
+                kind = "nonfinite-generic"
+            return (base, wrapper, mode, float("inf"), float("inf"), kind, 0.0)
+        if S.shape != eS.shape:
             return (base, wrapper, mode, float("inf"), float("inf"), None, 0.0)
         return (base, wrapper, mode, float(np.abs(S - eS).max()), float(np.abs(I - eI).max()), None, float(I[0]))
     except Exception as ex:
@@ -567,7 +592,8 @@ def nograph_calls(name, G, tau, gamma, rho):
     N = G.order()
     Pk = EoN.get_Pk(G)
     if name == "EBCM_uniform_introduction":
-        return EoN.EBCM_uniform_introduction(N, EoN.get_PGF(Pk), EoN.get_PGFPrime(Pk), tau, gamma, rho, tmin=0, tmax=TMAX, tcount=TCOUNT)
+        psi, psiP = psi_funcs(Pk)
+        return EoN.EBCM_uniform_introduction(N, psi, psiP, tau, gamma, rho, tmin=0, tmax=TMAX, tcount=TCOUNT)
     if name == "EBCM_pref_mix":
         return EoN.EBCM_pref_mix(N, Pk, EoN.get_Pnk(G), tau, gamma, rho=rho, tmin=0, tmax=TMAX, tcount=TCOUNT)
     raise KeyError(name)
@@ -611,7 +637,17 @@ def c4_task(task):
             continue
         S1 = np.asarray(out["SIS_" + x][1], dtype=float)
         S2 = np.asarray(out["SIR_" + x][1], dtype=float)
-        if S1.shape != S2.shape or not np.all(np.isfinite(S1)) or not np.all(np.isfinite(S2)):
+        if not _finite(S1, S2):
+            kind = "nonfinite-generic"
+            try:
+                r1 = call_graph_entry("SIS_" + x, G, tau, 1.0, mode, nodes, seeds, rec, rho)
+                r2 = call_graph_entry("SIR_" + x, G, tau, 1.0, mode, nodes, seeds, rec, rho)
+                if _finite(r1[1], r2[1]):
+                    kind = "nonfinite-limit"
+            except Exception:
+                pass
+            rows.append((mode, seeds, rho, float("inf"), {"_": kind}, False))
+        elif S1.shape != S2.shape:
             rows.append((mode, seeds, rho, float("inf"), None, False))
         else:
             rows.append((mode, seeds, rho, float(np.abs(S1 - S2).max()), None, bool(S1[-1] < S1[0] - 1e-6)))
